@@ -22,17 +22,28 @@ import (
 // (input predicate, panic signature) pair as a counted discard
 // "known:<id>"; everything else is still a violation. See FINDINGS.md.
 //
-//	F5  break/continue in a function literal that is lexically inside a loop
-//	    body: the compile steps are SKIPPED when the AST predicate holds (the
-//	    defect also corrupts the emitted code without panicking).
-//	F7  assignment to a builtin function name: the compile step is run; the
-//	    panic is accepted only with predicate + message + site.
-//	F8  for-in with more than two loop variables: same treatment.
+// No finding is open: F5, F7, F8 (and F9 before them) are repaired in /repo
+// and every switch is off, so the patterns are compiled and judged like any
+// other input (no panic; a failure is a well-formed, positioned error).
 //
-// F9 (>= GlobalsSize global symbols made Script.Compile panic) was repaired in
-// /repo by a7b7e37; its switch is gone and its reproducers are regression
-// replays under replays/C04/fixed/.
-var openFindings = map[string]bool{"F5": true, "F7": true, "F8": true}
+//	F5  break/continue in a function literal that is lexically inside a loop
+//	    body. Repaired by ff10e37: compile error "break/continue not allowed
+//	    outside loop". (While open: the compile steps were SKIPPED when the
+//	    AST predicate held, the defect also corrupted the emitted code
+//	    without panicking.)
+//	F7  assignment to a builtin function name. Repaired by 7d7d92d: compile
+//	    error "cannot assign to builtin function". (While open: the compile
+//	    step was run; the panic was accepted only with predicate + message +
+//	    site.)
+//	F8  for-in with more than two loop variables. Repaired by 17356fa: parse
+//	    error. (Same treatment as F7 while open.)
+//	F9  >= GlobalsSize global symbols made Script.Compile panic. Repaired by
+//	    a7b7e37; its switch is gone.
+//
+// The reproducers of all four are regression replays under
+// replays/C04/fixed/. The AST predicates stay: they feed the histogram
+// classes "pattern-of-repaired:<id>" that show the patterns are exercised.
+var openFindings = map[string]bool{"F5": false, "F7": false, "F8": false}
 
 type knownSig struct {
 	id    string
@@ -271,7 +282,21 @@ func TestKnownFindings(t *testing.T) {
 	files, _ := filepath.Glob(filepath.Join(verifRoot(), "replays", "C04", "open", "*.json"))
 	sort.Strings(files)
 	if len(files) == 0 {
-		t.Fatalf("no open-finding replays under %s/replays/C04/open", verifRoot())
+		ev.Note("no open findings: nothing under replays/C04/open")
+	}
+	for id, on := range openFindings {
+		if !on {
+			continue
+		}
+		found := false
+		for _, path := range files {
+			if strings.HasPrefix(filepath.Base(path), id+"-") {
+				found = true
+			}
+		}
+		if !found {
+			t.Errorf("open finding %s has no replay under replays/C04/open", id)
+		}
 	}
 	for _, path := range files {
 		raw, err := os.ReadFile(path)
